@@ -25,7 +25,9 @@ import (
 //     unchanged tree does not have;
 //   benign variants - the behaviour-preserving edits of /verif/selftest/benign.json (renames,
 //     helper extraction, reordered independent statements, flipped comparisons, added logging,
-//     changed error texts, moved functions) - must produce no new violated or undecided obligation.
+//     changed error texts, moved functions) and the behaviour-preserving refactorings written by
+//     independent sub-agents (/verif/selftest/benign_patches) - must produce no new violated or
+//     undecided obligation.
 //
 // A variant whose patch no longer applies to the current tree is skipped and reported, never a
 // failure. A rule set that fails its own catalogue makes the thorough check exit 2.
@@ -80,6 +82,15 @@ func selfTest(prop, repo, vdir string, out *core.Outcome) {
 			vars = append(vars, stVariant{id: "benign/" + bv.ID, kind: "benign", edits: bv.Edits})
 		}
 	}
+	var bpatches []struct {
+		ID    string `json:"id"`
+		Patch string `json:"patch"`
+	}
+	if b, err := os.ReadFile(filepath.Join(vdir, "selftest", "benign_patches", "INDEX.json")); err == nil && json.Unmarshal(b, &bpatches) == nil {
+		for _, bv := range bpatches {
+			vars = append(vars, stVariant{id: "benign/" + bv.ID, kind: "benign", patch: filepath.Join(vdir, bv.Patch)})
+		}
+	}
 	sort.Slice(vars, func(i, j int) bool { return vars[i].id < vars[j].id })
 	if len(vars) == 0 {
 		out.SelfTest = append(out.SelfTest, "no variant catalogue found under "+vdir)
@@ -97,7 +108,7 @@ func selfTest(prop, repo, vdir string, out *core.Outcome) {
 		fail bool
 	}
 	results := make([]result, len(vars))
-	sem := make(chan struct{}, 3)
+	sem := make(chan struct{}, 4)
 	var wg sync.WaitGroup
 	for i, v := range vars {
 		wg.Add(1)
